@@ -37,14 +37,14 @@ def compile (r : Req) : CRes CState :=
 def handleBuild (r : Req) : String :=
   match compile r with
   | .unsupported _ => "unsupported"
-  | .err e => s!"err {errStr e.err} tok={e.tok}"
+  | .err e _ => s!"err {errStr e.err} tok={e.tok}"
   | .ok s => s!"ok code={showCode (s.code.drop r.setup.m.code.length)} dmap={dmapStr (s.dmap.drop r.setup.m.code.length)}"
 
 /-- `C01 eval …` → build, then run from the first new opcode (what `eval` does on an idle interpreter) -/
 def handleEval (r : Req) : String :=
   match compile r with
   | .unsupported _ => "unsupported"
-  | .err e => s!"builderr {errStr e.err} tok={e.tok}"
+  | .err e _ => s!"builderr {errStr e.err} tok={e.tok}"
   | .ok s =>
     let m := r.setup.m
     let m1 : Mach := { m with code := s.code, dict := s.dict,
@@ -72,7 +72,7 @@ def obs (m : Mach) : String :=
 def handleStruct (r : Req) : String :=
   match compile r with
   | .unsupported _ => "unsupported"
-  | .err _ => "unsupported"
+  | .err _ _ => "unsupported"
   | .ok s =>
     let m := r.setup.m
     if m.code.length != 0 then "unsupported" else
